@@ -210,6 +210,12 @@ pub fn c02_accessors_at_chrono_max() {
     accessors_near(DateTime::<chrono::Utc>::MAX_UTC, -1)
 }
 
+/// timestamp + duration, duration + timestamp and timestamp - duration at chrono's upper limit:
+/// an error value, never a panic (the body is shared with C16)
+pub fn c02_time_arith_at_chrono_max() {
+    crate::c16::overflow_is_error(DateTime::<chrono::Utc>::MAX_UTC.fixed_offset())
+}
+
 const STUBS: () = ();
 crate::harnesses! {
     #[kani::unwind(2)] c02_float_arith: "quick", "<Value as Add/Sub/Mul> on (Float,Float)", "all f64 x f64 bit patterns; result bit-equal to the IEEE operation";
@@ -224,6 +230,7 @@ crate::harnesses! {
     #[kani::unwind(12)] c02_eq_cmp_scalar_kinds: "quick", "<Value as PartialEq>::eq, <Value as PartialOrd>::partial_cmp", "null/bool/int/double/uint against all 10 kinds: 50 ordered pairs, symbolic payloads";
     #[kani::unwind(34)] #[kani::stub(alloc::fmt::format, crate::stubs::format)] #[kani::stub(alloc::string::String::from_utf8_lossy, crate::stubs::from_utf8_lossy)] c02_string_of_any_duration: "quick", "functions::string on Value::Duration -> duration::format_duration", "every chrono duration (secs: i64, nanos < 10^9, Duration::new accepts)";
     #[kani::unwind(5)] c02_bytes_contains: "quick", "functions::contains on (Bytes, Bytes)", "haystack of 0-2 symbolic bytes, needle of 0-1 symbolic bytes";
+    #[kani::unwind(2)] c02_time_arith_at_chrono_max: "quick", "<Value as Add>::add (Timestamp,Duration) and (Duration,Timestamp), <Value as Sub>::sub (Timestamp,Duration)", "t = chrono MAX_UTC, d: every whole-second chrono duration";
     #[kani::unwind(2)] c02_accessors_at_chrono_min: "quick", "the ten timestamp accessors", "instants within 2^17 s after chrono's MIN_UTC, every offset within +-24 h";
     #[kani::unwind(2)] c02_accessors_at_chrono_max: "quick", "the ten timestamp accessors", "instants within 2^17 s before chrono's MAX_UTC, every offset within +-24 h";
 }
